@@ -128,7 +128,10 @@ def r11_1_window(chk):
 
 
 def r11_2_dispatch(chk):
-    mw = chk.summary("SourceDataWrapper", "make_wrapper")
+    mwf = chk.ix.get_method("SourceDataWrapper", "make_wrapper")
+    chk.consult(mwf)
+    # (private helpers such as an extension test are looked through; the wrapper classes themselves are not)
+    mw = chk.terms.inline(mwf, 2, stop=lambda g: g.name == "__init__" or g.cls is None)
     src = ("param", "source")
 
     def isinst(t, cls):
@@ -150,9 +153,10 @@ def r11_2_dispatch(chk):
                                            for pc, c in seen.get("HDF5DataWrapper", []))
     chk.require(ok, "R11.2", "dispatch:hdf5 path", "make_wrapper does not hand every other source to HDF5DataWrapper",
                 mw.func.where, nontrivial=False)
+    from ..terms import raise_conditions
     ext_raise = any(any(l[0] == "cmp" and l[1] == "not in" and l[3][0] in ("tuple", "list", "set")
                         and {x[1] for x in l[3][1] if x[0] == "const"} == {"h5", "hdf5"} for l in pc)
-                    for pc, _, _ in mw.raises)
+                    for pc, _ in raise_conditions(mw))
     chk.require(ext_raise, "R11.2", "dispatch:other paths raise", "a path that is not *.h5 / *.hdf5 is not refused",
                 mw.func.where, nontrivial=False)
     h5 = chk.summary("HDF5DataWrapper", "__init__")
